@@ -143,6 +143,9 @@ class ConfidenceMonitor:
         allnan = np.isnan(ncv).all(axis=2)
         for e in etas:
             within = ncv <= (best + e + eps)[:, :, None]
+            if eps < 0:
+                # costs exactly equal to the pixel's best are within every eta whatever the rounding
+                within = within | (ncv == best[:, :, None])
             if count_nan:
                 within = within | np.isnan(ncv)
             out += within.sum(axis=2)
@@ -236,7 +239,7 @@ class ConfidenceMonitor:
                 spreads, mins = [], []
                 amb = False
                 for e in etas:
-                    wl = np.isnan(x) | (x <= best + e - EPS)
+                    wl = np.isnan(x) | (x <= best + e - EPS) | (x == best)
                     wh = np.isnan(x) | (x <= best + e + EPS)
                     if (wl != wh).any():
                         amb = True
